@@ -1,11 +1,14 @@
 HARNESSES = {
     'StylingStep': dict(split={'op': 16}, quick=dict(params={'L': 6}), thorough=dict(params={'L': 9})),
     'DrawingStep': dict(split={'op': 16}, quick=dict(params={'L': 6}), thorough=dict(params={'L': 9})),
+    'WideStep': dict(split={'verb': 18, 'width': 3}),
     'Stream': dict(split={'hi': 16}, quick=dict(params={'L': 5}), thorough=dict(params={'L': 7})),
 }
 BOUNDS = {
+    'WideStep': 'one repetition of every drawing verb with one operand of any width (1/2/4 arbitrary bytes, position symbolic) and the others arbitrary 1-byte forms',
     'Numbers': 'all byte patterns of length 0..4',
     'StylingStep/DrawingStep': 'one instruction on a window of L arbitrary bytes (quick L=6, thorough L=9), every opcode byte, every operand width that fits; repeat counts limited by L',
+    'WideStep': dict(split={'verb': 18, 'width': 3}),
     'Stream': 'magic + L arbitrary bytes (quick L=5, thorough L=7): metadata and instructions',
 }
 OUTSIDE = 'instructions whose operands need more than L bytes (C/c/A/a with wide operands, long repeat runs) and streams longer than 4+L bytes as a whole; metadata sections longer than L bytes (see C13)'
